@@ -2,6 +2,7 @@
 // hexas) against the classic assemblers and the harness polynomial integrator, with 1 and 4 OpenMP threads. The
 // colouring is computed by the harness (greedy over vertex-adjacent cells), so every mesh of the c16 family is usable.
 #include <c16_blocked_impl.hpp>
+#include <c16_history_impl.hpp>
 
 #include <kernel/backend.hpp>
 #include <kernel/voxel_assembly/burgers_assembler.hpp>
@@ -84,6 +85,28 @@ namespace
           c.excluded("voxel route on negatively oriented cells");
           return;
         }
+      }
+      // ---------------------------------------------------------------- existing contents (see c16_history_impl.hpp): all voxel routes accumulate
+      if(nthreads == 1)
+      {
+        using c16h::history; using c16h::ACC;
+        const std::string kh = kp + " history ";
+        auto mk_csr = [&]{ CSR m; Assembly::SymbolicAssembler::assemble_matrix_std1(m, velo); m.format(); return m; };
+        auto mk_bcsr = [&]{ BCSR<D, D> m; Assembly::SymbolicAssembler::assemble_matrix_std1(m, velo); m.format(); return m; };
+        auto mk_bvec = [&]{ BVec<D> v(velo.get_num_dofs()); v.format(); return v; };
+        const BVec<D>& vv = base.vu.back();
+        const BVec<D>& primal = base.vu[base.vu.size() / 2];
+        VoxelAssembly::VoxelPoissonAssembler<SpaceType, double, Index> vp(velo, coloring, -1);
+        history(c, kh + "voxel.poisson", ACC, mk_csr, [&](CSR& m) { vp.assemble_matrix1(m, velo, cf, 0.75); });
+        VoxelAssembly::VoxelDefoAssembler<SpaceType, double, Index> vd(velo, coloring, -1);
+        vd.nu = 0.625;
+        history(c, kh + "voxel.defo", ACC, mk_bcsr, [&](BCSR<D, D>& m) { vd.assemble_matrix1(m, velo, cf, 1.25); });
+        VoxelAssembly::VoxelBurgersAssembler<SpaceType, double, Index> vb(velo, coloring, -1);
+        vb.deformation = true; vb.nu = 0.5; vb.theta = 2.0; vb.beta = 1.5; vb.frechet_beta = 0.25;
+        history(c, kh + "voxel.burgers-matrix", ACC, mk_bcsr, [&](BCSR<D, D>& m) { vb.assemble_matrix1(m, vv, velo, cf, 1.25); });
+        VoxelAssembly::VoxelBurgersAssembler<SpaceType, double, Index> vb2(velo, coloring, -1);
+        vb2.deformation = true; vb2.nu = 0.5; vb2.theta = 2.0; vb2.beta = 1.5;
+        history(c, kh + "voxel.burgers-vector", ACC, mk_bvec, [&](BVec<D>& r) { vb2.assemble_vector(r, vv, primal, velo, cf, 1.25); });
       }
       // ---------------------------------------------------------------- Poisson
       {
